@@ -7,6 +7,7 @@
 //	reopen                 (NewTrie at the same root over the same DB) -> root
 //	prove k,k,...|-                                 -> S:<sibling hashes> Q:<key:value:bitmap;...> | err
 //	verify <tag> <root> <keylen> <keys> <siblings> <queries> -> true|false|err (single query: "/1:<bool>" appended)
+//	reverify <n> same|copy|wire   (the objects of the n-th most recent verify op once more, pure.go) -> as verify | none
 //
 // The model driver prints SMTSpec.mapRoot (SHA-256) of the accumulated map, the model of Prove and the
 // transcription of Verify.  Model-free oracles: reference LIP-0039 root computed from a plain Go map, history /
@@ -934,9 +935,13 @@ func (g *caseGen) proveAndTamper() {
 		return
 	}
 	g.ops = append(g.ops, fmtVerify("honest", g.mi.root, g.mi.keyLen, keys, hp))
+	nV := 1
 	for _, v := range tamper(g.rng, g.mi, keys, hp, g.tamper) {
 		g.ops = append(g.ops, fmtVerify(v.tag, v.root, v.keyLen, v.keys, v.p))
+		nV++
 	}
+	// the same proof objects verified again after the tampered ones (pure.go; draws nothing from g.rng)
+	g.ops = append(g.ops, reverifyOps(g.ops, nV)...)
 }
 
 func genHistory(rng *rand.Rand, keyLen, poolSize, nOps, maxBatch, tamperN int) corr.Case {
@@ -1226,6 +1231,7 @@ type runner struct {
 	ref      map[string][]byte            // reference map
 	byRoot   map[string]map[string][]byte // root -> the map it commits to
 	values32 bool                         // all stored values have 32 bytes (required for reading stored subtrees)
+	verified []*verified                  // argument objects of the verify ops so far (reverify, pure.go)
 	fails    []corr.Fail
 	opIdx    int
 	seed     int64
@@ -1301,6 +1307,7 @@ func (r *runner) step(op string) string {
 		r.ref = map[string][]byte{}
 		r.byRoot = map[string]map[string][]byte{string(emptyHash): {}}
 		r.values32 = true
+		r.verified = nil
 		return "ok"
 	case "update":
 		b := parseBatch(w[1])
@@ -1368,7 +1375,7 @@ func (r *runner) step(op string) string {
 			return "err"
 		}
 		p := fromSMT(sp)
-		ok, verr := smt.Verify(keys, sp, r.root, r.keyLen)
+		ok, verr := r.pureVerify(clip(op), keys, sp, r.root, r.keyLen)
 		if !ok || verr != nil {
 			r.fail("honest-proof-rejected", fmt.Sprintf("%s: Verify(Prove) = %v, %v; proof %s", clip(op), ok, verr, clip(p.String())))
 		}
@@ -1380,7 +1387,11 @@ func (r *runner) step(op string) string {
 		keyLen, _ := strconv.Atoi(w[3])
 		keys := unHexList(w[4])
 		p := proof{sibs: unHexList(w[5]), queries: parseQueries(w[6])}
-		ok, err := smt.Verify(keys, p.toSMT(), root, keyLen)
+		// the argument objects are kept: they are verified again by the purity oracle and by later reverify ops
+		rec := &verified{tag: tag, keys: corr.SpareList(keys), sp: p.toSMTSpare(), root: corr.Spare(root), keyLen: keyLen}
+		r.verified = append(r.verified, rec)
+		ok, err := r.pureVerify("["+tag+"] "+clip(op), rec.keys, rec.sp, rec.root, rec.keyLen)
+		rec.first = verdictString(ok, err)
 		res := "false"
 		if err != nil {
 			res = "err"
@@ -1415,6 +1426,8 @@ func (r *runner) step(op string) string {
 		return res
 	case "uniq", "nupdate":
 		return r.stepBatch(w, op)
+	case "reverify":
+		return r.reverify(w, op)
 	}
 	return "bad-op"
 }
@@ -1661,6 +1674,10 @@ func (prop) Classify(c corr.Case, out []string) string {
 				} else {
 					feats["tamper-rejected"] = true
 				}
+			}
+		case "reverify":
+			if strings.HasPrefix(out[i], "true") {
+				feats["reuse"] = true
 			}
 		}
 	}
